@@ -207,8 +207,12 @@ class Endpoint:
         return self.guard(lambda: self._drive(self.t.stop()))
 
     def rx(self, data: bytes):
+        import time as _time
         self.begin()
-        return self.guard(lambda: self._drive(self.t._handle_data(data)))
+        t0 = _time.thread_time()
+        r = self.guard(lambda: self._drive(self.t._handle_data(data)))
+        self.last_rx_cpu = _time.thread_time() - t0
+        return r
 
     def fire(self, name):
         self.begin()
